@@ -35,6 +35,11 @@ def cases(draw):
         if draw(st.booleans()):
             cfg["allow_redundant_or"] = True
     target = draw(common.target_spec(g))
+    if draw(st.integers(0, 3)) == 0:
+        # empty shapes are kept: a requested class without instances reports 0 instances with and without inverse paths
+        cfg["remove_empty_shapes"] = False
+        if target["mode"] == "classes":
+            target["classes"] = target["classes"] + ["http://ex.org/C9"]
     thr = draw(st.sampled_from([0, 0, 0, 0.5, 1 / 3, 2 / 3, 1]))
     if not bn and draw(st.integers(0, 4)) == 0:
         # shape-map targets (first clause only): shape-map shapes can be empty, which is when the clean-up of references runs
